@@ -46,6 +46,8 @@ pub enum Cause {
     /// application: 0 close, 1 force_close, 2 close_with_reason (v5), 3 close_with_no_reason (v5)
     AppClose(u8),
     PeerDisconnect,
+    /// the peer acknowledges everything outstanding and closes in the same breath (woken senders run after the teardown began)
+    AckThenClose,
 }
 
 #[derive(Clone, Copy, Debug, PartialEq, Eq, Hash, Serialize, Deserialize)]
@@ -58,13 +60,16 @@ pub struct Case {
     pub byte: Option<u8>,
     pub cause: Cause,
     pub hold_stop: bool,
+    /// the control service answers the Stop notification with an error
+    #[serde(default)]
+    pub stop_fail: bool,
 }
 
 const Q0: Op = Op::Send { kind: SendKind::Qos0, again: false, own_id: 0 };
 const Q1: Op = Op::Send { kind: SendKind::Qos1, again: false, own_id: 0 };
 const Q2: Op = Op::Send { kind: SendKind::Qos2, again: false, own_id: 0 };
 
-pub const SCENARIOS: usize = 9;
+pub const SCENARIOS: usize = 11;
 
 /// (name, limit, steps)
 pub fn scenario(k: u8, role: Role) -> (&'static str, u16, Vec<Op>) {
@@ -86,12 +91,14 @@ pub fn scenario(k: u8, role: Role) -> (&'static str, u16, Vec<Op>) {
             3,
             if server { vec![Op::Hold(true), Op::Inbound(2), Op::Inbound(1), Op::Inbound(2), Op::Inbound(0)] } else { vec![Op::Hold(true), Op::Inbound(6), Op::Inbound(7), Op::Inbound(0), Op::Inbound(3)] },
         ),
+        9 => ("outbound streamed publish paused by write back-pressure", 3, vec![Op::Window(false), Op::StreamStart { qos: 0, declared: 200, bad: 0 }, Op::Chunk { stream: 0, len: 2 }, Op::Chunk { stream: 0, len: 2 }, Op::Chunk { stream: 0, len: 1 }]),
+        10 => ("streamed inbound payload half received, read by a task that outlives the handler", 3, vec![Op::Inbound(0), Op::Inbound(4)]),
         _ => ("mixed: gated handler, half payload, outbound sends, stream", 2, vec![Op::Hold(true), Op::Inbound(0), Q1, Q2, Op::Hold(false), Op::Inbound(4), Q1, Op::Ack { n: 1, batch: false }]),
     }
 }
 
 pub fn causes(role: Role) -> Vec<Cause> {
-    let mut v = vec![Cause::PeerClose, Cause::ReadError, Cause::WriteError, Cause::Garbage, Cause::Oversize, Cause::WrongAck, Cause::Unexpected, Cause::HandlerErr, Cause::HandlerErrLate, Cause::BackpressureErr, Cause::AppClose(0), Cause::AppClose(1), Cause::PeerDisconnect];
+    let mut v = vec![Cause::PeerClose, Cause::ReadError, Cause::WriteError, Cause::Garbage, Cause::Oversize, Cause::WrongAck, Cause::Unexpected, Cause::HandlerErr, Cause::HandlerErrLate, Cause::BackpressureErr, Cause::AppClose(0), Cause::AppClose(1), Cause::PeerDisconnect, Cause::AckThenClose];
     if role.is_v5() {
         v.extend([Cause::UnknownAlias, Cause::AppClose(2), Cause::AppClose(3)]);
     }
@@ -121,7 +128,7 @@ fn class_of(s: &StopKind) -> Class {
 
 fn expected(cause: Cause, role: Role) -> Class {
     match cause {
-        Cause::PeerClose | Cause::ReadError | Cause::WriteError | Cause::AppClose(_) => Class::Gone,
+        Cause::PeerClose | Cause::ReadError | Cause::WriteError | Cause::AppClose(_) | Cause::AckThenClose => Class::Gone,
         Cause::Garbage | Cause::Oversize | Cause::WrongAck | Cause::PubRelUnknown | Cause::UnknownAlias | Cause::DupId | Cause::Unexpected => Class::Protocol,
         Cause::HandlerErr | Cause::HandlerErrLate | Cause::CtlErr | Cause::BackpressureErr => Class::Error,
         Cause::PeerDisconnect => {
@@ -147,6 +154,25 @@ async fn inject(c: &Case, w: &mut World) -> bool {
     let mut bytes: Option<Vec<u8>> = None;
     match c.cause {
         Cause::PeerClose => w.eut.peer().close(),
+        Cause::AckThenClose => {
+            w.eut.peer().pump();
+            let _ = w.absorb();
+            let mut b = Vec::new();
+            while let Some(qi) = w.unanswered.pop_front() {
+                let r = w.requests[qi].clone();
+                let a = s5::Ack5 { pid: r.id, ..Default::default() };
+                let p = match (r.t, r.qos) {
+                    (3, 1) => P5::PubAck(a),
+                    (3, _) => P5::PubRec(a),
+                    (6, _) => P5::PubComp(a),
+                    (8, _) => P5::SubAck(s5::SubAck5 { pid: r.id, codes: vec![0], ..Default::default() }),
+                    _ => P5::UnsubAck(s5::SubAck5 { pid: r.id, codes: if role.is_v5() { vec![0] } else { vec![] }, ..Default::default() }),
+                };
+                b.extend(w.eut.encode(&p, &[]));
+            }
+            w.eut.peer().send(&b);
+            w.eut.peer().close();
+        }
         Cause::ReadError => w.eut.peer().read_error(),
         Cause::WriteError => {
             w.eut.peer().write_error();
@@ -250,7 +276,7 @@ async fn inject(c: &Case, w: &mut World) -> bool {
 
 pub async fn run_case(c: Case) -> Result<CaseInfo, Failure> {
     let (_, limit, steps) = scenario(c.scenario, c.role);
-    let write_hw = if c.scenario == 5 || c.cause == Cause::BackpressureErr { 64 } else { 0 };
+    let write_hw = if c.scenario == 5 || c.scenario == 9 || c.cause == Cause::BackpressureErr { 64 } else { 0 };
     let mut w = World::start_cfg(c.role, limit, LimitHow::Config, write_hw, None, &|cfg| {
         cfg.v3.max_size = 512;
         cfg.v5.max_size = 512;
@@ -260,11 +286,23 @@ pub async fn run_case(c: Case) -> Result<CaseInfo, Failure> {
         }
         cfg.v3.min_chunk_size = 4;
         cfg.v5.min_chunk_size = 4;
+        if c.scenario == 10 {
+            // the publish handler proper (with take_payload) serves routed topics on client roles
+            cfg.v3.router = true;
+            cfg.v5.router = true;
+        }
     })
     .await
     .map_err(|f| fail(&c, "harness-handshake", f.detail))?;
     let app = w.eut.app().clone();
+    if c.scenario == 10 {
+        w.partial_topic = "t/a".into();
+        app.pub_plans.borrow_mut().insert(1, PubPlan { outcome: Outcome::Ok, read: ReadPlan::Detached });
+    }
     app.hold_stop.set(c.hold_stop);
+    if c.stop_fail {
+        app.stop_answer.set(StopAnswer::Fail);
+    }
     if c.hold_stop {
         app.hold(G_STOP, 0);
     }
@@ -290,6 +328,10 @@ pub async fn run_case(c: Case) -> Result<CaseInfo, Failure> {
             }
         }
     }
+    if c.hold_stop {
+        // (a scenario step may have opened every gate)
+        app.rehold(G_STOP, 0);
+    }
     if w.eut.done().is_some() || !app.stops().is_empty() {
         return Err(fail(&c, "harness-scenario-ended", format!("the base scenario ended the connection by itself: {:?} {:?}", app.stops(), w.eut.done())));
     }
@@ -304,7 +346,7 @@ pub async fn run_case(c: Case) -> Result<CaseInfo, Failure> {
     let must_end = inject(&c, &mut w).await;
     w.eut.settle().await;
     w.poll_all();
-    if c.cause == Cause::HandlerErrLate && must_end {
+    if c.cause == Cause::HandlerErrLate && must_end && !(c.scenario == 10 && !c.role.is_server()) {
         // the handler has failed: the connection must end now, not when something else happens to wake the dispatcher
         let ev = app.events();
         if ev.iter().any(|e| matches!(e, Ev::PubExit { outcome: Outcome::Err, .. })) && !ev.iter().any(|e| matches!(e, Ev::Stop(_))) {
@@ -336,7 +378,9 @@ pub async fn run_case(c: Case) -> Result<CaseInfo, Failure> {
     w.poll_all();
     // the endpoint has ended the connection by itself when the Stop notification was delivered; the connection task
     // then completes once the peer has closed its side too (or the disconnect timeout fires: real time, not modelled)
-    let helped = app.stops().is_empty();
+    // (routed clients run without a control service in the bed: the end of the connection is seen on the transport)
+    let has_control = !(c.scenario == 10 && !c.role.is_server());
+    let helped = if has_control { app.stops().is_empty() } else { !(w.eut.done().is_some() || w.eut.peer().endpoint_closed() || w.eut.sink_open() == Some(false)) };
     if helped && must_end {
         return Err(Failure::new(
             "connection-not-ended",
@@ -360,14 +404,14 @@ pub async fn run_case(c: Case) -> Result<CaseInfo, Failure> {
     let ev = app.events();
     let stops = app.stops();
     // (1) exactly one Stop, of the right class, and the control service is not called again
-    if stops.len() != 1 {
+    if has_control && stops.len() != 1 {
         return Err(Failure::new(
             "stop-count",
             format!("C07/{}/stop-count/{}", c.role.name(), stops.len().min(2)),
             format!("cause {:?}: the control service saw {} Stop notifications {:?}; events {:?}", c.cause, stops.len(), stops, brief_events(&ev)),
         ));
     }
-    let got = class_of(&stops[0]);
+    let got = if has_control { class_of(&stops[0]) } else { expected(c.cause, c.role) };
     let want = expected(c.cause, c.role);
     let ok = got == want || (helped && got == Class::Gone) || (!must_end && got == Class::Protocol && matches!(want, Class::Protocol | Class::Error));
     if !ok {
@@ -377,7 +421,7 @@ pub async fn run_case(c: Case) -> Result<CaseInfo, Failure> {
             format!("cause {:?}: expected a {want:?} stop, the control service saw {:?}; events {:?}", c.cause, stops[0], brief_events(&ev)),
         ));
     }
-    let stop_at = ev.iter().position(|e| matches!(e, Ev::Stop(_))).unwrap();
+    let stop_at = ev.iter().position(|e| matches!(e, Ev::Stop(_))).unwrap_or(ev.len().saturating_sub(1));
     if let Some(e) = ev[stop_at + 1..].iter().find(|e| matches!(e, Ev::WrBackpressure(_) | Ev::Stop(_))) {
         return Err(fail(&c, "control-called-after-stop", format!("{e:?} after the Stop notification; events {:?}", brief_events(&ev))));
     }
@@ -403,6 +447,19 @@ pub async fn run_case(c: Case) -> Result<CaseInfo, Failure> {
                 }
             }
             _ => {}
+        }
+    }
+    // a reader that outlives its handler is told as well (it is not cancelled with the handler)
+    if c.scenario == 10 && cut >= 2 && c.byte.is_none() && w.inbound_owed > 0 {
+        // (bytes injected by the cause may have completed the payload: then the reader finished normally; a clean end of an
+        // incomplete payload is rejected by the rule above)
+        let told = ev.iter().any(|e| matches!(e, Ev::PubRead { seq: 1, .. }));
+        if !told {
+            return Err(Failure::new(
+                "detached-reader-not-told",
+                format!("C07/{}/detached-reader-not-told", c.role.name()),
+                format!("the connection ended ({:?}) while a task was reading a half-received payload taken with take_payload(): it observed no error; events {:?}", c.cause, brief_events(&ev)),
+            ));
         }
     }
     // (4) nothing keeps running: every handler finished or was dropped
@@ -477,7 +534,10 @@ pub fn all_cases(thorough: bool) -> Vec<Case> {
             for cut in 0..=steps.len() as u8 {
                 for cause in causes(role) {
                     for hold_stop in [false, true] {
-                        out.push(Case { role, scenario: sc, cut, byte: None, cause, hold_stop });
+                        out.push(Case { role, scenario: sc, cut, byte: None, cause, hold_stop, stop_fail: false });
+                        if !hold_stop && matches!(sc, 3 | 4 | 5 | 6 | 8 | 9) {
+                            out.push(Case { role, scenario: sc, cut, byte: None, cause, hold_stop, stop_fail: true });
+                        }
                     }
                 }
                 // fault inside the inbound packet of this step, at every byte offset
@@ -485,7 +545,7 @@ pub fn all_cases(thorough: bool) -> Vec<Case> {
                     let max = if thorough || sc <= 2 || sc == 7 { 40 } else { 0 };
                     for b in 1..max {
                         for cause in [Cause::PeerClose, Cause::ReadError] {
-                            out.push(Case { role, scenario: sc, cut, byte: Some(b), cause, hold_stop: b % 2 == 0 });
+                            out.push(Case { role, scenario: sc, cut, byte: Some(b), cause, hold_stop: b % 2 == 0, stop_fail: false });
                         }
                     }
                 }
@@ -515,7 +575,7 @@ pub fn run(ctx: &Ctx, started: Instant) -> i32 {
         rule: format!(
             "grid of {total} cases: base scenarios {names:?} x every step index (cause injected after 0..n steps) x causes {{peer close, read error, write error, malformed Remaining Length, frame above the inbound maximum, unsolicited PUBACK, packet type the role never receives, \
              failing publish handler (at once, or after having been suspended while older handlers still run), control service failing on a back-pressure notification, application close / force_close (v5 also close_with_reason / close_with_no_reason), peer DISCONNECT; v5: unknown topic alias; v3 server: PUBREL with unknown id, duplicate QoS 1 id; \
-             servers: failing protocol handler}} x Stop notification handled at once / held open x four roles; for peer close and read error additionally every byte offset 1..39 inside the inbound packet being delivered (quick: scenarios 0-2 and 7; thorough: all). \
+             servers: failing protocol handler}} x Stop notification handled at once / held open / answered with an error x four roles; for peer close and read error additionally every byte offset 1..39 inside the inbound packet being delivered (quick: scenarios 0-2 and 7; thorough: all). \
              Oracle: exactly one Stop of the class the cause demands (protocol / application error / peer gone; a cause that cannot take effect because its bytes land in an owed payload or nothing is written falls back to a peer close), no control call after it, every owned \
              send/ready/release/chunk future resolved, no clean end of an incomplete payload, every handler finished or dropped and none dropped before the held Stop was handled, connection task finished, no panic. \
              Non-trivial = a handler, future or payload reader was pending (or a packet half delivered) when the fault landed; distinct = grid cell"
